@@ -197,7 +197,7 @@ func newHistEnv() *histEnv {
 func sptr(s string) *string { return &s }
 
 // declared values of the enum column e in the initial frames
-var c01EnumVals = []string{"hi", "lo", "mid", "Hi"}
+var c01EnumVals = []string{"hi", "Hi", "lo", "mid"}
 
 // initial frames
 func (e *histEnv) initial(id int) qframe.QFrame {
@@ -220,6 +220,35 @@ func (e *histEnv) initial(id int) qframe.QFrame {
 	case 2: // one row
 		return qframe.New(map[string]interface{}{
 			"i": []int{2}, "f": []float64{math.NaN()}, "b": []bool{true}, "s": []*string{nil}, "e": []*string{sptr("mid")}, "k": []int{0},
+		}, enums)
+	case 4: // 40 rows, 20 distinct keys k (more groups than any small-size shortcut), ties in every column
+		n := 40
+		is, fs, bs, ss, es, ks := make([]int, n), make([]float64, n), make([]bool, n), make([]*string, n), make([]*string, n), make([]int, n)
+		evs := []string{"lo", "hi", "Hi", "mid"}
+		for r := 0; r < n; r++ {
+			is[r] = (r * 7) % 11
+			fs[r] = float64((r*5)%9) / 2
+			if r%13 == 6 {
+				fs[r] = math.NaN()
+			}
+			bs[r] = r%3 == 0
+			if r%9 != 4 {
+				ss[r] = sptr(string(rune('a' + (r*3)%5)))
+			}
+			if r%8 != 5 {
+				es[r] = sptr(evs[(r*3)%4])
+			}
+			ks[r] = (r * 13) % 20
+		}
+		return qframe.New(map[string]interface{}{"i": is, "f": fs, "b": bs, "s": ss, "e": es, "k": ks}, enums)
+	case 5: // duplicate rows (A, A, A, B): Slice(0,2) and Slice(1,3) show equal cells through different physical rows
+		return qframe.New(map[string]interface{}{
+			"i": []int{2, 2, 2, 0},
+			"f": []float64{0.5, 0.5, 0.5, math.NaN()},
+			"b": []bool{true, true, true, false},
+			"s": []*string{sptr("a"), sptr("a"), sptr("a"), nil},
+			"e": []*string{sptr("lo"), sptr("lo"), sptr("lo"), nil},
+			"k": []int{1, 1, 1, 0},
 		}, enums)
 	default: // caller-owned slices: qframe stores []int/[]float64/[]bool without copying
 		e.ownedInt = []int{2, 2, 5, 0}
@@ -458,7 +487,12 @@ func c01Run(ctx *core.Ctx) {
 		depth = 4
 	}
 	ops := c01Ops()
-	for init := 0; init < 4; init++ {
+	fullDepth := depth
+	for _, init := range []int{0, 1, 2, 3, 4} {
+		depth = fullDepth
+		if init == 4 {
+			depth = fullDepth - 1 // the 40-row frame: QFrames alone adds 20 members per step
+		}
 		e := newHistEnv()
 		fam := []*member{newFrameMember(e.initial(init), "initial")}
 		fam[0].id = 0
